@@ -1,9 +1,9 @@
 #!/bin/sh
 # usage: seed_pipeline.sh <ID> [CHECK ...]   confirm (scratch worktree) + screen (private copy of /verif) every mutant of <ID>
-# at most two pipelines run at a time (two lock files)
+# at most four pipelines run at a time (four lock files)
 id=$1; shift
 if [ -z "$SEED_LOCKED" ]; then
-  slot=$(( $(date +%s) % 2 ))
+  slot=${SEED_SLOT:-$(( $$ % 4 ))}
   SEED_LOCKED=1 exec flock /tmp/seed/lock.$slot "$0" "$id" "$@"
 fi
 for md in /tmp/seed/out/$id/m*; do
